@@ -19,7 +19,7 @@ class Stop(BaseException):
     pass
 
 
-def run_driver(argv, loops=2):
+def run_driver(argv, loops=2, workdir=None):
     """Returns (captures, error). captures: list of dicts per completed residual() call."""
     import multiprocessing as mp
     import numpy as np
@@ -52,7 +52,8 @@ def run_driver(argv, loops=2):
 
     mon = wrap_method(ErrorEstimator, 'residual', before=before, after=after)
     cwd = os.getcwd()
-    work = tempfile.mkdtemp(prefix='driver-', dir=env.scratch_root())
+    # workdir: a directory kept by the caller, so that a second run finds the cache files (./data) of the first
+    work = workdir or tempfile.mkdtemp(prefix='driver-', dir=env.scratch_root())
     old_argv = sys.argv
     real_start = mp.set_start_method
     err = None
@@ -76,5 +77,6 @@ def run_driver(argv, loops=2):
         sys.argv = old_argv
         os.chdir(cwd)
         mon.uninstall()
-        shutil.rmtree(work, ignore_errors=True)
+        if workdir is None:
+            shutil.rmtree(work, ignore_errors=True)
     return captures, err
